@@ -526,6 +526,7 @@ pub fn execute(plan: &Plan, trace: bool) -> Exec {
             ex.probe("pending_calls", calls.iter().filter(|c| c.started_before_cause).count() as u64);
             ex.probe("later_calls", calls.iter().filter(|c| !c.started_before_cause).count() as u64);
             ex.probe("open_blocked_on_credit", blocked_open as u64);
+            ex.fault(cause_kind(&plan.cause), 1);
             let who = if plan.observer_is_client { "client" } else { "server" };
             judge(&mut ex, &plan.cause, &calls, t0, bound_us, who);
             if let Some((a, b)) = peer_tx {
@@ -590,6 +591,21 @@ pub struct RawPlan {
     /// drains any more, the others must be refused - the worker must not wait for room)
     #[serde(default)]
     pub extra_requests: u8,
+}
+
+fn cause_kind(c: &Cause) -> &'static str {
+    match c {
+        Cause::PeerClose { .. } => "termination:peer_close",
+        Cause::LocalClose { .. } => "termination:local_close",
+        Cause::Blackhole => "termination:black_hole_both_ways",
+        Cause::InboundCut => "termination:inbound_cut",
+        Cause::PeerEndpointClose { .. } => "termination:peer_endpoint_closed",
+        Cause::LocalEndpointClose { .. } => "termination:local_endpoint_closed",
+        Cause::PeerDropsAllHandles => "termination:peer_drops_all_handles",
+        Cause::Capsule { .. } => "termination:close_capsule",
+        Cause::ProtocolViolation { .. } => "termination:protocol_violation",
+        Cause::CleanFin => "termination:connect_stream_fin",
+    }
 }
 
 pub fn exec_raw(plan: &RawPlan, trace: bool) -> Exec {
@@ -702,7 +718,7 @@ pub fn exec_raw(plan: &RawPlan, trace: bool) -> Exec {
             ex.nontrivial = true;
             let who = if plan.server_under_test { "server" } else { "client" };
             if let Some((closed, a, b)) = dropped {
-                ex.probe("handle_drop_runs", 1);
+                ex.fault("application_drops_every_handle", 1);
                 match closed {
                     None => ex.violation(
                         "C09/peer-not-told-of-drop",
@@ -713,6 +729,9 @@ pub fn exec_raw(plan: &RawPlan, trace: bool) -> Exec {
                 }
             } else {
                 ex.probe("pending_calls", calls.iter().filter(|c| c.started_before_cause).count() as u64);
+                ex.fault(cause_kind(&plan.cause), 1);
+                ex.fault("peer_stream_stalled", (plan.stalled_stream > 0) as u64);
+                ex.fault("extra_connect_requests_left_open", if plan.server_under_test { plan.extra_requests as u64 } else { 0 });
                 judge(&mut ex, &plan.cause, &calls, t0, bound_us, who);
             }
         }
@@ -942,7 +961,7 @@ pub fn exec_sync(p: &SyncPlan, _trace: bool) -> Exec {
         Ok((problems, steps, cancelled, hash)) => {
             ex.trace_hash = hash;
             ex.probe("executor_steps", steps);
-            ex.probe("tasks_cancelled", cancelled as u64);
+            ex.fault("task_cancelled_at_chosen_poll", cancelled as u64);
             if let Some((c, d)) = problems.into_iter().next() {
                 ex.violation(&c, d);
             }
